@@ -1,6 +1,7 @@
 import VgiVerif.Model.C02
 import VgiVerif.Spec.C02
 import VgiVerif.Lemmas.C02Stable
+import VgiVerif.Lemmas.C02Hint
 /-
 C02 property theorems (the obligations).  Helper lemmas: `Lemmas/C02.lean`, `Lemmas/C02Reject.lean`, `Lemmas/C02Stable.lean`
 (namespace `Aux`), and the C03 lemmas for dataclass payloads.  `env` is any Arrow environment; its laws appear as explicit
@@ -16,10 +17,10 @@ theorem C02_shapes :
       ("frozenset", "list(val)"), ("dict", "list(val.items())")]
     ∧ Gen.C02.deserializeBranches.map Prod.fst = ["dataclass", "Enum", "dict", "frozenset"]
     ∧ (Gen.C02.deserializeBranches.map Prod.snd).drop 1 = ["base[value]", "dict(cast('list[tuple[object, object]]', value))", "frozenset(value)"]
-    ∧ Gen.C02.deserializeUnwrapsOptional = true ∧ Gen.C02.paramsOptFirst = true ∧ Gen.C02.resultOptFirst = true
+    ∧ Gen.C02.deserializeUnwrapsOptional = true ∧ Gen.C02.deserializeOrder = "opt-then-ann" ∧ Gen.C02.paramsOptFirst = true ∧ Gen.C02.resultOptFirst = true
     ∧ Gen.C02.validateParamsRejectsNone = true ∧ Gen.C02.validateResultRejectsNone = true
     ∧ Gen.C02.mergeDefaultsFirst = true ∧ Gen.C02.writeRequestConverts = true ∧ Gen.C02.resultUsesSameConversions = true := by
-  refine ⟨by decide, by decide, by decide, rfl, rfl, rfl, rfl, rfl, rfl, rfl, rfl⟩
+  refine ⟨by decide, by decide, by decide, rfl, by decide, rfl, rfl, rfl, rfl, rfl, rfl, rfl⟩
 
 theorem arrowResult_eq (t : Ty) : arrowResult t = arrowTop t := by
   have h : Gen.C02.resultOptFirst = true := by rfl
@@ -95,7 +96,27 @@ theorem C02_signature_echo (env : Env) (sig : List Param) (args : List (List Cha
   rw [C02_echo env p.ty _ (h p hp).1 (h p hp).2.1 (h p hp).2.2]
   rfl
 
+/-- Hint shapes: however `X | None` and `Annotated[X, ArrowType(…) / other metadata]` are combined — as long as the Optional is
+on the outside (`regular`: `T`, `T | None`, `Annotated[T, …]`, `Annotated[T, …] | None`) — the implementation receives the value,
+exactly as for the resolved annotation. -/
+theorem C02_hint_roundtrip (env : Env) (ws : List Wrap) (t : Ty) (v : V) (hr : regular ws = true) (ho : isOpt t = false)
+    (hs : supported (resolved ws t) = true) (h : inhabits env (resolved ws t) v = true) :
+    tripH env ws t v = .ok (norm env (resolved ws t) v) := by
+  rw [Aux.tripH_regular env ws t v hr ho]
+  exact Aux.trip_ok env _ _ v hs h rfl
+
+/-- …and the echo returns it (stable stored forms). -/
+theorem C02_hint_echo (env : Env) (ws : List Wrap) (t : Ty) (v : V) (hr : regular ws = true) (ho : isOpt t = false)
+    (hs : supported (resolved ws t) = true) (h : inhabits env (resolved ws t) v = true)
+    (hst : Stable env (resolved ws t) v) : echoH env ws t v = .ok (norm env (resolved ws t) v) := by
+  unfold echoH
+  rw [C02_hint_roundtrip env ws t v hr ho hs h]
+  show tripH env ws t (norm env (resolved ws t) v) = _
+  rw [C02_hint_roundtrip env ws t _ hr ho hs hst.1, hst.2]
+
 /-! non-vacuity -/
+example : regular [.opt, .annArrow] = true ∧ regular [.annArrow, .opt] = false := by decide
+example : supported (resolved [.opt, .annArrow] (.set (.int .i16))) = true := by decide
 example : supported (.map .str (.opt .f32)) = true := by decide
 example : inhabits concreteEnv (.list (.opt (.int .i8))) (.list [.int 127, .none]) = true := by decide
 example : wellTyped concreteEnv (.int .i8) (.int 128) = true ∧ inhabits concreteEnv (.int .i8) (.int 128) = false := by decide
